@@ -593,6 +593,97 @@ func multiKeyCases(r *lib.Rng) []valCase {
 	return out
 }
 
+// ---------- histories: the verdict on a document must not depend on what was validated before ----------
+
+// pairs of rules with the same blank-joined text but different token boundaries: the first is
+// well-formed (a path containing blanks), the second is not
+func rulePairs(tag string) [][2][]string {
+	p := "rel " + tag + ".txt" // unique per case, so that cases do not influence each other
+	return [][2][]string{
+		{{"CREATE", p}, {"CREATE", "rel", tag + ".txt"}},
+		{{"ALLOW", p}, {"ALLOW", "rel", tag + ".txt"}},
+		{{"DISALLOW", p}, {"DISALLOW rel", tag + ".txt"}},
+		{{"MATCH", p, "WITH", "PRODUCTS", "FROM", "build"}, {"MATCH", "rel", tag + ".txt", "WITH", "PRODUCTS", "FROM", "build"}},
+		{{"MATCH", tag, "IN", "src dir", "WITH", "MATERIALS", "FROM", "s"}, {"MATCH", tag, "IN", "src", "dir", "WITH", "MATERIALS", "FROM", "s"}},
+		{{"MATCH", tag, "WITH", "PRODUCTS", "FROM", "build"}, {"MATCH", tag + " WITH PRODUCTS", "FROM", "build"}},
+		{{"MATCH", tag, "WITH", "MATERIALS", "IN", "dst dir", "FROM", "s"}, {"MATCH", tag, "WITH", "MATERIALS", "IN", "dst", "dir FROM", "s"}},
+		{{"REQUIRE", p}, {"REQUIRE " + p}},
+	}
+}
+
+func ruleLayout(stepMats, stepProds, step2Mats, inspMats [][]string) intoto.Layout {
+	l := intoto.Layout{Type: "layout", Expires: "2030-01-02T03:04:05Z"}
+	s := intoto.Step{Type: "step"}
+	s.Name = "one"
+	s.ExpectedMaterials, s.ExpectedProducts = stepMats, stepProds
+	l.Steps = []intoto.Step{s}
+	if step2Mats != nil {
+		s2 := intoto.Step{Type: "step"}
+		s2.Name = "two"
+		s2.ExpectedMaterials = step2Mats
+		l.Steps = append(l.Steps, s2)
+	}
+	if inspMats != nil {
+		i := intoto.Inspection{Type: "inspection"}
+		i.Name = "insp"
+		i.ExpectedMaterials = inspMats
+		l.Inspect = []intoto.Inspection{i}
+	}
+	return l
+}
+
+func runHistory(h []valInput) string {
+	var out []string
+	for i := range h {
+		out = append(out, runValidate("metablock", &h[i]))
+	}
+	return strings.Join(out, ",")
+}
+
+func modelHistory(h []valInput) string {
+	var parts []string
+	for i := range h {
+		parts = append(parts, modelValidate("metablock", &h[i]))
+	}
+	return "(" + strings.Join(parts, " ++ [44] ++ ") + ")"
+}
+
+func historyCases(r *lib.Rng, w *lib.Writer) {
+	tag := r.Str("abcdefghijklmnopqrstuvwxyz", 6, 6)
+	for pi, pr := range rulePairs(tag) {
+		good, bad := pr[0], pr[1]
+		gl := ruleLayout([][]string{good}, nil, nil, nil)
+		bl := ruleLayout([][]string{bad}, nil, nil, nil)
+		bp := ruleLayout(nil, [][]string{{"ALLOW", "*"}, bad}, nil, nil)
+		hist := func(klass, desc string, docs []intoto.Layout, want string) {
+			var h []valInput
+			for i := range docs {
+				h = append(h, valInput{Layout: &docs[i]})
+			}
+			in := input{Kind: "history", History: h, Desc: desc}
+			w.Put(lib.Case{Klass: "validate:" + klass, Input: lib.MustJSON(in), Impl: runHistory(h), Oracle: want, CoqModel: modelHistory(h)})
+		}
+		gs, bs := strings.Join(good, "|"), strings.Join(bad, "|")
+		// inside one layout (validated in a process that has not seen the well-formed rule yet for odd pairs)
+		one := func(klass, desc string, l intoto.Layout) {
+			hist(klass, desc, []intoto.Layout{l}, "ERR")
+		}
+		if pi%2 == 1 {
+			one("rulecache-inlayout", "one layout: step 'one' has the rule "+gs+", step 'two' the malformed "+bs, ruleLayout([][]string{good}, nil, [][]string{bad}, nil))
+			one("rulecache-inlayout", "one layout: step 'one' has the malformed "+bs+", step 'two' the rule "+gs, ruleLayout([][]string{bad}, nil, [][]string{good}, nil))
+		}
+		// two documents in one process, both orders
+		hist("rulecache-history", "validate a layout with the rule "+gs+", then one with the malformed "+bs+" (same text, other token boundaries)",
+			[]intoto.Layout{gl, bl}, "OK,ERR")
+		hist("rulecache-history", "validate a layout with the malformed "+bs+", then one with the rule "+gs+", then the malformed one among the products",
+			[]intoto.Layout{bl, gl, bp}, "ERR,OK,ERR")
+		if pi%2 == 0 {
+			one("rulecache-inlayout", "one layout: materials of a step have the rule "+gs+", its products the malformed "+bs, ruleLayout([][]string{good}, [][]string{bad}, nil, nil))
+			one("rulecache-inlayout", "one layout: a step has the rule "+gs+", an inspection the malformed "+bs, ruleLayout([][]string{good}, nil, nil, [][]string{bad}))
+		}
+	}
+}
+
 func valCases(r *lib.Rng, w *lib.Writer, n int, thorough bool) {
 	var all []valCase
 	rounds := 1
@@ -637,6 +728,7 @@ func valCases(r *lib.Rng, w *lib.Writer, n int, thorough bool) {
 		all = pick
 	}
 	// always part of the run (not subject to the sampling quota)
+	defer historyCases(r.Fork(), w)
 	all = append(all, multiKeyCases(r.Fork())...)
 	for _, c := range all {
 		v := c.v
